@@ -139,6 +139,10 @@ def run(tier, seed):
         if e:
             ng.append({"op": "dic_new_guessed", "reading": "かわ" + e + e, "word": "愛" + e})
             ngmeta.append(("good", "愛", "かわ" + e, e))
+    # a written form with decomposed kana (base + U+3099 / U+309A): the ending is still cut at the same place in word and reading
+    for w, r in [("カ\u3099ラスだ", "がらすだ"), ("ハ\u309aンい", "ぱんい"), ("き\u3099かない", "ぎかない")]:
+        ng.append({"op": "dic_new_guessed", "reading": r, "word": w})
+        ngmeta.append(("good", w[:-1], r[:-1], None))
     # the shortest well-formed pairs: the word is nothing but a recognised ending (stem and stem reading empty)
     for e in ["ない", "い", "だ", "かない", "しない", "xない", "あない"]:
         ng.append({"op": "dic_new_guessed", "reading": e, "word": e})
